@@ -924,6 +924,64 @@ fn gen_op(r: &mut Rng, s: &mut Sym, weights: &[u32; 12]) -> Option<LifeOp> {
     None
 }
 
+/// Sub-scenario "owner-race": several owners of one module and one runtime exist; two threads
+/// clone/drop owners at the same time, and the first operation of thread 0 is preempted after
+/// exactly k instructions (k drawn uniformly: successive runs sweep the instruction positions).
+pub fn generate_owner_race(run_seed: u64) -> LifeDesc {
+    let mut r = Rng::new(rng::derive(run_seed, &[rng::label("owner-race")]));
+    let k_ver = 1 + r.below(5);
+    let mut setup = vec![
+        LifeOp::NewRuntime { r: 0, rid: 0 },
+        LifeOp::Compile { r: 0, p: 0, m: 0, k: k_ver },
+        LifeOp::GetHandle { p: 0, h: 0, which: 0 },
+        LifeOp::CloneHandle { src: 0, dst: 1 },
+        LifeOp::CloneRuntime { src: 0, dst: 1 },
+    ];
+    // which owners remain: sometimes exactly two handles are the last owners of everything
+    let mut alive_rts = vec![0usize, 1];
+    let mut pkg_alive = true;
+    if r.chance(2, 3) {
+        setup.push(LifeOp::DropPackage { p: 0 });
+        pkg_alive = false;
+    }
+    if r.chance(1, 2) {
+        setup.push(LifeOp::DropRuntime { r: 1 });
+        alive_rts.retain(|&x| x != 1);
+        if r.chance(1, 2) {
+            setup.push(LifeOp::DropRuntime { r: 0 });
+            alive_rts.clear();
+        }
+    }
+    let mut pick = |r: &mut Rng, t: usize| -> LifeOp {
+        // thread t prefers "its" handle t
+        match r.weighted(&[55, 10, if alive_rts.is_empty() { 0 } else { 15 }, if alive_rts.is_empty() { 0 } else { 12 }, if pkg_alive { 8 } else { 0 }]) {
+            0 => LifeOp::DropHandle { h: t },
+            1 => LifeOp::CloneHandle { src: t, dst: 2 + t },
+            2 => LifeOp::DropRuntime { r: *r.pick(&alive_rts) },
+            3 => LifeOp::CloneRuntime { src: *r.pick(&alive_rts), dst: 2 },
+            _ => LifeOp::DropPackage { p: 0 },
+        }
+    };
+    let mut threads = Vec::new();
+    for t in 0..2 {
+        let n = 1 + r.below(2) as usize;
+        threads.push((0..n).map(|_| pick(&mut r, t)).collect::<Vec<_>>());
+    }
+    let fine = Some((0usize, 0usize, 1 + r.below(1400)));
+    LifeDesc {
+        property: "C11".into(),
+        scenario: "owner-race".into(),
+        run_seed,
+        strategy: "sticky95".into(),
+        sched_seed: rng::derive(run_seed, &[rng::label("schedule")]),
+        setup,
+        threads,
+        teardown_seed: rng::derive(run_seed, &[rng::label("teardown")]),
+        fine,
+        schedule: None,
+    }
+}
+
 pub fn generate(run_seed: u64, thorough: bool) -> LifeDesc {
     let mut r = Rng::new(rng::derive(run_seed, &[rng::label("workload")]));
     let mut s = Sym { rts: vec![None; N_RT], pks: vec![None; N_PK], hds: vec![None; N_HD], next_rid: 0, next_m: 0, next_aid: 0 };
@@ -1189,6 +1247,7 @@ pub fn execute(d: &LifeDesc, keep_trace: bool) -> RunResult {
     c.insert(format!("strategy_{}", d.strategy.split('/').next().unwrap_or("")), 1);
     c.insert("ops".into(), (d.setup.len() + d.threads.iter().map(|t| t.len()).sum::<usize>()) as u64);
     c.insert("ops_executed".into(), P_EXECUTED.load(SeqCst));
+    c.insert(format!("scenario_{}", d.scenario), 1);
     c.insert("fine_window_configured".into(), d.fine.is_some() as u64);
     c.insert("fine_window_preemptions_fired".into(), sched::FINE_FIRED.load(SeqCst));
     c.insert("fine_window_instructions_stepped".into(), sched::FINE_STEPS.load(SeqCst));
